@@ -93,7 +93,7 @@ pub fn run(rep: &mut Report) {
     rep.assume("ancilla initialisation only as a qubit's first and post-selection only as its last operation (the documented contract); other placements are counted out of domain");
     let quick = rep.quick();
     let fams: Vec<(&str, usize, Vec<Gate>, usize)> = if quick {
-        vec![("K(2,3,A_full)", 2, alpha_full(2), 3), ("K(3,2,A_full)", 3, alpha_full(3), 2), ("K(2,4,A_ct)", 2, alpha_ct(2), 4), ("K(2,2,A_tol)", 2, alpha_tol(2), 2)]
+        vec![("K(2,3,A_full)", 2, alpha_full(2), 3), ("K(3,2,A_full)", 3, alpha_full(3), 2), ("K(2,4,A_ct)", 2, alpha_ct(2), 4), ("K(2,2,A_tol)", 2, alpha_tol(2), 2), ("K(3,3,A_full)", 3, alpha_full(3), 3), ("K(4,2,A_full)", 4, alpha_full(4), 2)]
     } else {
         vec![("K(2,4,A_full)", 2, alpha_full(2), 4), ("K(3,3,A_full)", 3, alpha_full(3), 3), ("K(3,4,A_ct)", 3, alpha_ct(3), 4), ("K(2,3,A_tol)", 2, alpha_tol(2), 3), ("K(4,2,A_full)", 4, alpha_full(4), 2)]
     };
